@@ -82,7 +82,7 @@ theorem mem_run_log (s : State) (ps : List Prim) (r : LogRec) (h : r ∈ s.disk.
   | nil => simpa using h
   | cons p ps ih =>
     apply ih
-    cases p <;> simp [applyPrim, applyDisk] <;> (try split) <;> simp_all
+    cases p <;> simp [applyPrim, applyDisk] <;> (try split) <;> (try split) <;> (try simp_all)
 
 theorem log_mono_prim (s : State) (p : Prim) (r : LogRec) (h : r ∈ s.disk.log) :
     r ∈ (applyPrim s p).disk.log := mem_run_log s [p] r h
